@@ -137,7 +137,9 @@ def find_subseq(seq, subseq):
         # np.correlate would silently swap its arguments
         return np.array([], dtype=int)
     target = np.dot(subseq, subseq)
-    candidates = np.where(np.correlate(seq, subseq, mode="valid") == target)[0]
+    # (not "==": for floats, the two sums can round differently)
+    corr = np.correlate(seq, subseq, mode="valid")
+    candidates = np.where(np.isclose(corr, target, atol=0))[0]
     # some of the candidates entries may be false positives; check:
     check = candidates[:, np.newaxis] + np.arange(len(subseq))
     mask = np.all((np.take(seq, check) == subseq), axis=-1)
